@@ -525,6 +525,25 @@ struct Judge {
             });
         }
     }
+    // Attribution (DESIGN 1.5a "attribute, then key"): CPodes' root finder treats witnesses that are
+    // exactly zero at a (re)start specially; every anomaly of an event reported within one step of such a
+    // restart is keyed to that situation instead of to the oracle that happened to notice it.
+    bool zeroWitnessRestart(const Traj& T, double t) const {
+        if (!isCPodes(sc.ik) || !(t - T.ts <= sc.hmax)) return false;
+        for (auto& w : S.wits) if (w.eval(T.ts, T.y.data()) == 0) return true;
+        return false;
+    }
+    static const char* restartKey() { return "cpodes-restart:event-anomaly-within-one-step-of-restart-with-exactly-zero-witness"; }
+    bool checkK(const std::string& key, double resid, double tol, const Traj& T, double t, const std::function<Json()>& w) {
+        if (resid <= tol || !zeroWitnessRestart(T, t)) return c.check(key, resid, tol, w);
+        c.viol(restartKey(), w().set("oracle", key).set("resid", resid).set("tol", tol));
+        return false;
+    }
+    bool requireK(const std::string& key, bool ok, const Traj& T, double t, const std::function<Json()>& w) {
+        if (ok || !zeroWitnessRestart(T, t)) return c.require(key, ok, w);
+        c.viol(restartKey(), w().set("oracle", key));
+        return false;
+    }
     double winBound(const Wit& w, double acc, double t) const {
         return std::max(acc * sc.tscale * w.win, 1e-12 * std::max(1.0, std::fabs(t)));
     }
@@ -619,7 +638,7 @@ struct Judge {
                     if (ex / tl < best / bestTol) { best = ex; bestTol = tl; }
                 }
                 if (best > bestTol && tG - seg.ts <= Wg + DT && ambiguousAtStart(w, seg)) { c.obs("roundoff-level-rereport"); continue; }
-                c.check("trig-call-window:" + tag + ":" + hkName(H.kind), best, bestTol, [&] {
+                checkK("trig-call-window:" + tag + ":" + hkName(H.kind), best, bestTol, seg, tG, [&] {
                     Json jr = Json::arr(); for (auto& rt : roots) jr.push(Json::obj().set("t", rt.t).set("dir", rt.dir));
                     return Json::obj().set("scen", sc.str()).set("what", "triggered handler called with no monitored crossing in (t-window, t]").set("tCall", tG).set("window", Wg).set("roots", jr).set("wit", witJ(H.wit)).set("segStart", seg.ts).set("handler", hkey(L[k].h));
                 });
@@ -700,7 +719,7 @@ struct Judge {
                 // a handler called in this dispatch accounts for a crossing inside the window; anything else
                 // must not lie behind tG at all. Residual = how far the crossing lies before that limit.
                 const double lim = isCalled ? tG - Wg : tG;
-                c.check(std::string("no-skip:") + tag + ":" + where, std::max(0.0, lim - rt.t), tslack(rt, dev), [&] {
+                checkK(std::string("no-skip:") + tag + ":" + where, std::max(0.0, lim - rt.t), tslack(rt, dev), seg, rt.t, [&] {
                     return Json::obj().set("scen", sc.str()).set("what", "monitored persisting crossing was never reported/handled").set("root", rt.t).set("dir", rt.dir).set("tNow", tG).set("window", Wg)
                         .set("handlerCalledInThisDispatch", isCalled).set("wit", witJ(H.wit)).set("segStart", seg.ts).set("handler", hkey((int)h));
                 });
@@ -920,7 +939,6 @@ void runManual(Ctx& c, Scen& sc, Built& B) {
         double tSch = sp < sc.scheds.size() ? sc.scheds[sp] : Infinity;
         if (tRep < integ.getTime() || tSch < integ.getTime()) { c.skip("client-precondition:time-behind-state"); break; }
         c.setPhase("I:stepTo " + sc.str());
-        if (c.args.verbose) fprintf(stderr, "    before stepTo: tAdv=%.17g uAdv=%.17g  t=%.17g u=%.17g\n", integ.getAdvancedTime(), integ.getAdvancedState().getU()[0], integ.getTime(), integ.getState().getU()[0]);
         Integrator::SuccessfulStepStatus st;
         try { st = integ.stepTo(tRep, tSch); }
         catch (const std::exception& e) {
@@ -959,7 +977,7 @@ void runManual(Ctx& c, Scen& sc, Built& B) {
             };
             c.require("event:returned-state-time-is-tLow:" + tag, t == tLow, base);
             c.require("event:advanced-time-is-tHigh:" + tag, tAdv == tHigh, base);
-            c.require("event:window-nonempty:" + tag, tLow < tHigh, base);
+            J.requireK("event:window-nonempty:" + tag, tLow < tHigh, seg, tHigh, base);
             c.require("event:windows-in-time-order:" + tag, tLow >= lastTHigh && tLow >= seg.ts, [&] { return base().set("prevTHigh", lastTHigh); });
             // (report/scheduled/final times inside the window are C19's invariant I6, not judged here)
             bool sizes = ids.size() > 0 && est.size() == ids.size() && trans.size() == ids.size();
@@ -989,13 +1007,17 @@ void runManual(Ctx& c, Scen& sc, Built& B) {
                 const double tlo = wt.gtol(tLow, ylo.data()), thi = wt.gtol(tHigh, yhi.data());
                 const bool pre = rising ? glo <= tlo : glo >= -tlo, post = rising ? ghi >= -thi : ghi <= thi;
                 auto sj = [&] { return base().set("transition", tr).set("eLow", elo).set("eHigh", ehi).set("gLow", glo).set("gHigh", ghi).set("roundoff", tlo).set("wit", J.witJ(S.hs[h].wit)); };
-                c.require("event:advanced-state-witness-not-past-crossing:" + tag + ":" + wk, post, sj);
+                J.requireK("event:advanced-state-witness-not-past-crossing:" + tag + ":" + wk, post, seg, tHigh, sj);
                 // before-state on the wrong side: either by no more than the integration accuracy (the crossing lies
                 // just before tLow on the re-interpolated before-state) or macroscopically (no crossing at all)
-                const bool marginal = std::fabs(glo) <= acc * (1 + std::fabs(wt.kind == WTime ? tLow : ylo[wt.comp]));
-                if (pre || marginal) c.require("event:before-state-past-crossing-within-accuracy:" + tag + ":" + (exactWit(P, wt, J.qx) && !isCPodes(sc.ik) && (wt.kind != WQuad || J.qx) ? "exact" : "generic"), pre, sj);
-                if (pre || !marginal) c.require("event:listed-witness-did-not-cross:" + tag + ":" + wk, pre, sj);
-                c.require("event:estimated-time-in-window:" + tag, est[i] > tLow && est[i] <= tHigh, [&] { return base().set("est", est[i]); });
+                const bool marginal = std::fabs(glo) <= acc * (1 + std::fabs(wt.kind == WTime ? tLow : ylo[wt.comp])) && std::fabs(glo) <= 0.1 * std::fabs(ghi - glo);
+                // (the before-state is itself only accurate to the integration accuracy: a witness that is past
+                // its crossing there by less than that, and still moving in the reported direction, is counted,
+                // not judged)
+                const bool moving = rising ? ghi >= glo - thi : ghi <= glo + thi;
+                if (!pre && marginal && moving) c.obs("before-state-marginally-past-crossing");
+                else J.requireK("event:listed-witness-did-not-cross:" + tag + ":" + wk, pre, seg, tHigh, sj);
+                J.requireK("event:estimated-time-in-window:" + tag, est[i] > tLow && est[i] <= tHigh, seg, tHigh, [&] { return base().set("est", est[i]); });
                 if (i > 0) c.require("event:estimated-times-ascending:" + tag, est[i] >= est[i - 1], [&] { return base().set("est", est[i]).set("prev", est[i - 1]); });
                 c.cover(J.coverKey(h));
                 // analytic crossing inside the window
@@ -1008,7 +1030,7 @@ void runManual(Ctx& c, Scen& sc, Built& B) {
                         if (ex / tl < best / bestTol) { best = ex; bestTol = tl; }
                     }
                     if (best > bestTol && tLow - seg.ts <= DT && J.ambiguousAtStart(wt, seg)) { c.obs("roundoff-level-rereport"); continue; }
-                    c.check("root-in-window:" + tag + ":" + wk, best, bestTol, [&] {
+                    J.checkK("root-in-window:" + tag + ":" + wk, best, bestTol, seg, tHigh, [&] {
                         Json jr = Json::arr(); for (auto& rt : roots) jr.push(Json::obj().set("t", rt.t).set("dir", rt.dir));
                         return base().set("what", "no analytic crossing of the listed witness (reported direction) inside (tLow,tHigh]").set("roots", jr).set("wit", J.witJ(S.hs[h].wit)).set("eLow", elo).set("eHigh", ehi);
                     });
@@ -1030,14 +1052,13 @@ void runManual(Ctx& c, Scen& sc, Built& B) {
                     if (rt.soft || !monitored(wt, rt.dir) || rt.t - seg.ts <= GUARD) continue;
                     const double DTr = Judge::tslack(rt, dev);
                     if (rt.t < tLow - DTr)
-                        c.check("no-skip:" + tag + ":before-event-window", tLow - rt.t, DTr, [&] { return base().set("what", "an earlier monitored crossing was never reported").set("root", rt.t).set("dir", rt.dir).set("wit", J.witJ(S.hs[h].wit)); });
+                        J.checkK("no-skip:" + tag + ":before-event-window", tLow - rt.t, DTr, seg, rt.t, [&] { return base().set("what", "an earlier monitored crossing was never reported").set("root", rt.t).set("dir", rt.dir).set("wit", J.witJ(S.hs[h].wit)); });
                     else if (rt.t > tLow + DTr && rt.t < tHigh - DTr && !listed.count((int)h))
-                        c.check("no-skip:" + tag + ":unlisted-crossing-inside-window", std::min(rt.t - tLow, tHigh - rt.t), DTr, [&] { return base().set("what", "monitored crossing strictly inside the window is not in the triggered list").set("root", rt.t).set("dir", rt.dir).set("wit", J.witJ(S.hs[h].wit)); });
+                        J.checkK("no-skip:" + tag + ":unlisted-crossing-inside-window", std::min(rt.t - tLow, tHigh - rt.t), DTr, seg, rt.t, [&] { return base().set("what", "monitored crossing strictly inside the window is not in the triggered list").set("root", rt.t).set("dir", rt.dir).set("wit", J.witJ(S.hs[h].wit)); });
                     else c.check("no-skip:" + tag + ":before-event-window", 0, DT, nullptr);
                 }
             }
             lastTHigh = tHigh;
-            if (c.args.verbose) fprintf(stderr, "    at event: tAdv=%.17g uAdv=%.17g  t=%.17g u=%.17g\n", integ.getAdvancedTime(), integ.getAdvancedState().getU()[0], integ.getTime(), integ.getState().getU()[0]);
             // handle
             std::vector<double> yBefore = yhi;
             bool term = false; Stage lowest = Stage::Infinity;
@@ -1085,7 +1106,8 @@ void runManual(Ctx& c, Scen& sc, Built& B) {
                     });
                 }
             }
-            if (sc.everyStep) { ta = tAdv; ya = yb; haveA = true; }
+            // (a return at an unchanged advanced time is not a new step end)
+            if (sc.everyStep && tAdv > ta) { ta = tAdv; ya = yb; haveA = true; }
         }
         // analytic: no monitored crossing may lie behind a state that was returned as part of the trajectory
         {
